@@ -694,7 +694,11 @@ func awsUpdateinfo(as []adv) []byte {
 
 // awsWorld serves, per release, the mirror list at the address the release's
 // updater asks, and on the mirror repomd.xml and updateinfo.xml.gz.
-func (w *world) awsWorld(advs map[string][]adv) {
+func (w *world) awsWorld(advs map[string][]adv) { w.awsWorldTagged(advs, "") }
+
+// awsWorldTagged: tag goes into the updateinfo checksum of repomd.xml (the
+// updater's fingerprint), so that a republished feed has another one.
+func (w *world) awsWorldTagged(advs map[string][]adv, tag string) {
 	lists := map[string]string{
 		"AL1":    "repo.us-west-2.amazonaws.com/2018.03/updates/x86_64/mirror.list",
 		"AL2":    "cdn.amazonlinux.com/2/core/latest/x86_64/mirror.list",
@@ -706,7 +710,7 @@ func (w *world) awsWorld(advs map[string][]adv) {
 		zw := gzip.NewWriter(&gz)
 		zw.Write(awsUpdateinfo(as))
 		zw.Close()
-		sum := fmt.Sprintf("%x", len(gz.Bytes())) + "-" + rel
+		sum := fmt.Sprintf("%x", len(gz.Bytes())) + "-" + rel + tag
 		md := `<?xml version="1.0" encoding="UTF-8"?><repomd xmlns="http://linux.duke.edu/metadata/repo" xmlns:rpm="http://linux.duke.edu/metadata/rpm"><revision>1</revision>` +
 			`<data type="primary_db"><checksum type="sha256">aa</checksum><location href="repodata/primary.sqlite.bz2"/></data>` +
 			`<data type="updateinfo"><checksum type="sha256">` + sum + `</checksum><location href="repodata/updateinfo.xml.gz"/><timestamp>1</timestamp></data></repomd>`
